@@ -73,6 +73,103 @@ def _toprank_filter(filters, bvar):
 # R07
 # ---------------------------------------------------------------------------
 
+def _walk_facts(ctx, t, b, cfg, credits_c, credits_x):
+    """explore the CFG of a transfer() function with the facts X (ballot exhausted) and M (top candidate in the continuing set).
+    Returns (violations at candidate credits, at non-transferable credits, at advance() calls, continuing states, number of advance
+    sites) or None when a construct is not understood."""
+    d = deriv(ctx)
+    cont_sets = []
+
+    def atom(e):
+        """('X'|'M', polarity) for an atomic test on the ballot, None for anything else"""
+        if isinstance(e, ast.Attribute) and e.attr == 'exhausted' and isinstance(e.value, ast.Name) and e.value.id == b:
+            return ('X', True)
+        if isinstance(e, ast.Attribute) and e.attr in ('topCand', 'topRank') and isinstance(e.value, ast.Name) and e.value.id == b:
+            return ('X', False)             # truthy top preference: not exhausted
+        if isinstance(e, ast.Compare) and len(e.ops) == 1 and isinstance(e.ops[0], (ast.In, ast.NotIn)) \
+                and isinstance(e.left, ast.Attribute) and e.left.attr == 'topCand' and isinstance(e.left.value, ast.Name) and e.left.value.id == b:
+            st_ = d.states(e.comparators[0], t)
+            if st_ is None:
+                return None
+            cont_sets.append(st_)
+            return ('M', isinstance(e.ops[0], ast.In))
+        return None
+
+    def outcomes(e, facts):
+        """[(truth, facts)] for evaluating test e under facts (X, M each True/False/None)"""
+        if isinstance(e, ast.UnaryOp) and isinstance(e.op, ast.Not):
+            return [(not tr, f2) for tr, f2 in outcomes(e.operand, facts)]
+        if isinstance(e, ast.BoolOp):
+            res = []
+            is_and = isinstance(e.op, ast.And)
+
+            def rec(i, f_):
+                if i == len(e.values):
+                    res.append((is_and, f_))
+                    return
+                for tr, f2 in outcomes(e.values[i], f_):
+                    if tr != is_and:
+                        res.append((tr, f2))      # short circuit
+                    else:
+                        rec(i + 1, f2)
+            rec(0, facts)
+            return res
+        a = atom(e)
+        if a is None:
+            return [(True, facts), (False, facts)]
+        k, pol = a
+        i = 0 if k == 'X' else 1
+        cur = facts[i]
+        out = []
+        for val in (True, False):
+            if cur is not None and cur != val:
+                continue
+            f2 = list(facts)
+            f2[i] = val
+            # an exhausted ballot has no top candidate: M cannot be true
+            if f2[0] is True and f2[1] is True:
+                continue
+            out.append((val == pol, tuple(f2)))
+        return out
+
+    bad_c, bad_x, bad_adv = [], [], []
+    advs = set()
+    seen = set()
+    stack = [(cfg.entry, (None, None))]
+    while stack:
+        node, facts = stack.pop()
+        if (node.id, facts) in seen:
+            continue
+        seen.add((node.id, facts))
+        if node in credits_c and not (facts[0] is False and facts[1] is True):
+            bad_c.append('line %d credits the top candidate on a path where %s' % (node.line, 'the ballot may be exhausted' if facts[0] is not False
+                                                                                    else 'the top candidate need not be continuing'))
+        if node in credits_x and facts[0] is not True:
+            bad_x.append('line %d adds to the non-transferable total on a path where the ballot need not be exhausted' % node.line)
+        is_adv = node.kind == 'stmt' and any(isinstance(c.func, ast.Attribute) and c.func.attr == 'advance' and isinstance(c.func.value, ast.Name)
+                                             and c.func.value.id == b for c in calls_at(node))
+        if is_adv:
+            advs.add(node)
+            if not (facts[0] is False and facts[1] is False):
+                bad_adv.append('line %d advances the ballot on a path where %s' % (node.line, 'it may be exhausted' if facts[0] is not False
+                                                                                   else 'its top candidate may be continuing'))
+            facts = (None, None)
+        if node.kind == 'test':
+            for tr, f2 in outcomes(node.ast.test, facts):
+                for nxt, lab in node.succ:
+                    if lab is tr:
+                        stack.append((nxt, f2))
+            continue
+        for nxt, lab in node.succ:
+            if lab == 'exc':
+                continue
+            stack.append((nxt, facts))
+    cont = None
+    if cont_sets and all(c_ == cont_sets[0] for c_ in cont_sets):
+        cont = cont_sets[0]
+    return sorted(set(bad_c)), sorted(set(bad_x)), sorted(set(bad_adv)), cont, len(advs)
+
+
 def r07_transfer_once(ctx):
     R = 'R07'
     n = 0
@@ -108,37 +205,24 @@ def r07_transfer_once(ctx):
         ctx.check(once, R, t.node, t, 'every transferred ballot is credited exactly once: to a candidate or to the non-transferable total',
                   'every path through transfer() passes exactly one of %d credit statement(s)' % len(credits),
                   'a path through transfer() credits the ballot %s' % ('to nobody: ' + cfg.describe_path(p) if p else 'more than once (or a credit kind is missing)'))
-        # guards: candidate credit under not exhausted, non-transferable under exhausted
-        tests = [x for x in cfg.nodes if x.kind == 'test' and isinstance(x.ast, ast.If) and unparse(x.ast.test) in ('%s.exhausted' % b, 'not %s.exhausted' % b)]
-        okg = False
-        if len(tests) == 1:
-            tt = tests[0]
-            pos = unparse(tt.ast.test) == '%s.exhausted' % b
-            def dom(node, lab):
-                return node not in cfg.reach([cfg.entry], edge_ok=lambda a, c, l: not (a is tt and l is lab), include_start=True)
-            okg = all(dom(x, pos) for x in credits_x) and all(dom(c, not pos) for c in credits_c)
-        ctx.check(okg, R, t.node, t, 'the candidate is credited only when the ballot still has a continuing preference',
-                  'credit to topCand under `not %s.exhausted`, credit to E.exhausted under `%s.exhausted`' % (b, b),
-                  'the credits of transfer() are not split on %s.exhausted' % b)
-        # the advance loop skips exactly the non-continuing candidates
+        # guards, decided along the paths of transfer() (facts: X = the ballot is exhausted, M = its top candidate is in the continuing
+        # set; both forgotten at advance()): the candidate is credited only with X false and M true, the non-transferable total only
+        # with X true, and the ballot advances only past a candidate that is not continuing.  Independent of how the walk is written
+        # (`while not exhausted and topCand not in hopeful`, a `while not exhausted:` with an inner test and early return, ...).
+        walk = _walk_facts(ctx, t, b, cfg, credits_c, credits_x)
+        if walk is None:
+            ctx.unrecognised(R, t.node, t, 'the ballot walk of transfer()', 'a test or statement on the walk is not understood')
+            continue
+        bad_c, bad_x, bad_adv, cont, n_adv = walk
+        ctx.check(not bad_c and not bad_x, R, t.node, t, 'the candidate is credited only when the ballot still has a continuing preference',
+                  'credit to topCand only on paths with `not %s.exhausted` and topCand continuing, credit to E.exhausted only on paths with `%s.exhausted`' % (b, b),
+                  'the credits of transfer() are not split on %s.exhausted: %s' % (b, '; '.join(bad_c + bad_x)))
+        okw = cont is not None and 'hopeful' in cont and cont <= frozenset(['hopeful', 'pending']) and not bad_adv and n_adv >= 1
         wl = [x for x in t.own_nodes() if isinstance(x, ast.While)]
-        okw = False
-        cont = None
-        if len(wl) == 1:
-            test = wl[0].test
-            parts = test.values if isinstance(test, ast.BoolOp) and isinstance(test.op, ast.And) else []
-            for p_ in parts:
-                if isinstance(p_, ast.Compare) and len(p_.ops) == 1 and isinstance(p_.ops[0], ast.NotIn) \
-                        and unparse(p_.left) == '%s.topCand' % b:
-                    st_ = deriv(ctx).states(p_.comparators[0], t)
-                    cont = st_
-                    okw = st_ is not None and 'hopeful' in st_ and st_ <= frozenset(['hopeful', 'pending'])
-            body_ok = [unparse(s) for s in wl[0].body if not isinstance(s, ast.Pass)] == ['%s.advance()' % b]
-            okw = okw and body_ok
         summaries[ri.short] = sorted(cont) if cont else None
         ctx.check(okw, R, wl[0] if wl else t.node, t, 'a transferred ballot moves to its next continuing candidate',
-                  'while not exhausted and topCand not in %s: advance()' % ('+'.join(sorted(cont)) if cont else '?'),
-                  'the ballot walk of transfer() does not skip exactly the non-continuing candidates')
+                  'the ballot advances only while not exhausted and topCand not in %s' % ('+'.join(sorted(cont)) if cont else '?'),
+                  'the ballot walk of transfer() does not skip exactly the non-continuing candidates%s' % (': ' + '; '.join(bad_adv) if bad_adv else ''))
     # the non-transferable total starts at zero before the first action is recorded or any ballot is transferred
     for ri in gregory_rules(ctx):
         f, cfg = ri.count, ri.cfg
